@@ -278,8 +278,8 @@ def evaluate(case):
 
 def condforms():
     # each: source lines before, the IF line, expected branch (1 = IF branch, 2 = ELSE branch)
-    def lad(pre, cond, want, files=None, args=None):
-        return {'k': 'cond', 'pre': pre, 'cond': cond, 'want': want, 'files': files or {}}
+    def lad(pre, cond, want, files=None, args=None, post=None):
+        return {'k': 'cond', 'pre': pre, 'cond': cond, 'want': want, 'files': files or {}, 'post': post or []}
     out = []
     for neg, kw in ((0, 'ifdef'), (1, 'ifndef')):
         out.append(lad(['sym equ 5'], kw + ' sym', 1 if not neg else 2))
@@ -301,6 +301,11 @@ def condforms():
         out.append(lad([' db sym', 'sym equ 5'], kw + ' sym', 1 if not neg else 2))
         out.append(lad([' db sym', 'sym equ 5', ' db sym'], kw + ' sym', 1 if not neg else 2))
         out.append(lad(['oth equ sym+1', 'sym equ 5'], kw + ' sym', 1 if not neg else 2))
+        # defined, but referenced only BEHIND the query, in a source that needs a second pass: "used" is what the current pass
+        # has seen up to here, not what an earlier pass saw further down
+        out.append(lad(['sym equ 5'], kw + ' sym', 2 if not neg else 1, post=[' db sym', ' jmp fwd', 'fwd:']))
+        out.append(lad(['sym equ 5', ' jmp fwd'], kw + ' sym', 2 if not neg else 1, post=[' db sym', 'fwd:']))
+        out.append(lad(['sym equ 5'], kw + ' sym', 2 if not neg else 1, post=['oth equ sym+1', ' jmp fwd', ' db oth', 'fwd:']))
     for neg, kw in ((0, 'ifexist'), (1, 'ifnexist')):
         out.append(lad([], kw + ' "there.inc"', 1 if not neg else 2, files={'there.inc': '; x\n'}))
         out.append(lad([], kw + ' "absent.inc"', 2 if not neg else 1))
@@ -339,8 +344,12 @@ def eval_cond(case):
         for n, c in case['files'].items():
             core.put(n, c)
         src = ['\tcpu 8080'] + [(l if not l.startswith(' ') else '\t' + l.strip()) for l in case['pre']] + \
-              ['\t' + case['cond'], '\tdb 1', '\telse', '\tdb 2', '\tendif', '\tdb 9']
+              ['\t' + case['cond'], '\tdb 1', '\telse', '\tdb 2', '\tendif', '\tdb 9'] + \
+              [(l if not l.startswith(' ') else '\t' + l.strip()) for l in case.get('post', [])]
         want = [5] * sum(1 for l in case['pre'] if l.strip() == 'db sym') + [case['want'], 9]
+        want = ([0xc3, None, None] if ' jmp fwd' in case['pre'] else []) + want
+        for l in case.get('post', []):
+            want += {'db sym': [5], 'jmp fwd': [0xc3, None, None], 'db oth': [6]}.get(l.strip(), [])
         wantwarn = 0
     elif case['k'] == 'ifb':
         n = case['n']
@@ -377,6 +386,8 @@ def eval_cond(case):
     if o.rc != 0 or p is None:
         return core.R(False, 'cond-rejected', 'cond/rejected/' + case['k'], 'rc=%s %s on %s' % (o.rc, txt[-200:], src))
     got = [b for r in pfile.data_records(pfile.read(p)) for b in r.data]
+    if len(got) == len(want):
+        got = [g if w is not None else None for g, w in zip(got, want)]       # (None: the two address bytes of a jump)
     if got != want:
         sig = 'cond/%s/%s' % (case['k'], case.get('kw', case.get('cond', case.get('sel', ''))).split()[0])
         return core.R(False, 'cond-branch', sig, 'assembled %s model %s on %s' % (got, want, src))
